@@ -12,7 +12,7 @@ def allCombos (n : Nat) : List (List Nat) := (subsets (List.range n)).filter (fu
 
 /-! ### popMin -/
 
-theorem popMin_none {q : List Entry} (h : popMin q = none) : q = [] := by
+theorem popMin_none {val : Nat → Nat} {q : List Entry} (h : popMin val q = none) : q = [] := by
   cases q with
   | nil => rfl
   | cons e r =>
@@ -21,7 +21,7 @@ theorem popMin_none {q : List Entry} (h : popMin q = none) : q = [] := by
     · simp at h
     · split at h <;> simp at h
 
-theorem popMin_perm {q : List Entry} {m : Entry} {q' : List Entry} (h : popMin q = some (m, q')) :
+theorem popMin_perm {val : Nat → Nat} {q : List Entry} {m : Entry} {q' : List Entry} (h : popMin val q = some (m, q')) :
     q.Perm (m :: q') := by
   induction q generalizing m q' with
   | nil => simp [popMin] at h
@@ -44,14 +44,14 @@ theorem popMin_perm {q : List Entry} {m : Entry} {q' : List Entry} (h : popMin q
         obtain ⟨rfl, rfl⟩ := h
         exact (List.Perm.cons e ih').trans (List.Perm.swap _ _ _)
 
-theorem lt_of_key_lt {a b : Entry} (h : a.key < b.key) : a.lt b = true := by
+theorem lt_of_key_lt {val : Nat → Nat} {a b : Entry} (h : a.key < b.key) : a.lt val b = true := by
   simp [Entry.lt, h]
 
-theorem key_le_of_lt {a b : Entry} (h : a.lt b = true) : a.key ≤ b.key := by
+theorem key_le_of_lt {val : Nat → Nat} {a b : Entry} (h : a.lt val b = true) : a.key ≤ b.key := by
   simp only [Entry.lt, Bool.or_eq_true, Bool.and_eq_true, decide_eq_true_eq, beq_iff_eq] at h
   omega
 
-theorem popMin_min {q : List Entry} {m : Entry} {q' : List Entry} (h : popMin q = some (m, q')) :
+theorem popMin_min {val : Nat → Nat} {q : List Entry} {m : Entry} {q' : List Entry} (h : popMin val q = some (m, q')) :
     ∀ e ∈ q, m.key ≤ e.key := by
   induction q generalizing m q' with
   | nil => simp [popMin] at h
@@ -201,7 +201,8 @@ theorem pending_perm {n : Nat} {a b : List Entry} (h : a.Perm b) : (pending n a)
   h.flatMap_right _
 
 /-- one pop: the pending set loses exactly the emitted combination -/
-theorem pending_pop (scores : List Nat) (n : Nat) {q q' : List Entry} {e : Entry} (h : popMin q = some (e, q')) :
+theorem pending_pop {val : Nat → Nat} (scores : List Nat) (n : Nat) {q q' : List Entry} {e : Entry}
+    (h : popMin val q = some (e, q')) :
     (pending n q).Perm (e.comb :: pending n (q' ++ children scores n e)) := by
   have h1 := pending_perm (n := n) (popMin_perm h)
   refine h1.trans ?_
@@ -210,15 +211,15 @@ theorem pending_pop (scores : List Nat) (n : Nat) {q q' : List Entry} {e : Entry
   simp only [List.cons_append, pending]
   exact List.Perm.cons _ List.perm_append_comm
 
-theorem combosLoop_succ (scores : List Nat) (n fuel : Nat) (q : List Entry) :
-    combosLoop scores n (fuel + 1) q =
-      match popMin q with
+theorem combosLoop_succ (val : Nat → Nat) (scores : List Nat) (n fuel : Nat) (q : List Entry) :
+    combosLoop val scores n (fuel + 1) q =
+      match popMin val q with
       | none => []
-      | some (e, q') => (e.comb, e.key) :: combosLoop scores n fuel (q' ++ children scores n e) := rfl
+      | some (e, q') => (e.comb, e.key) :: combosLoop val scores n fuel (q' ++ children scores n e) := rfl
 
-theorem combosLoop_complete (scores : List Nat) (n : Nat) :
+theorem combosLoop_complete (val : Nat → Nat) (scores : List Nat) (n : Nat) :
     ∀ (fuel : Nat) (q : List Entry), (pending n q).length ≤ fuel →
-      ((combosLoop scores n fuel q).map (·.1)).Perm (pending n q) := by
+      ((combosLoop val scores n fuel q).map (·.1)).Perm (pending n q) := by
   intro fuel
   induction fuel with
   | zero =>
@@ -245,9 +246,9 @@ theorem scoreSum_append (scores : List Nat) (c : List Nat) (i : Nat) :
     scoreSum scores (c ++ [i]) = scoreSum scores c + scores.getD i 0 := by
   simp [scoreSum]
 
-theorem combosLoop_keys (scores : List Nat) (n : Nat) :
+theorem combosLoop_keys (val : Nat → Nat) (scores : List Nat) (n : Nat) :
     ∀ (fuel : Nat) (q : List Entry), (∀ e ∈ q, e.key = scoreSum scores e.comb) →
-      ∀ p ∈ combosLoop scores n fuel q, p.2 = scoreSum scores p.1 := by
+      ∀ p ∈ combosLoop val scores n fuel q, p.2 = scoreSum scores p.1 := by
   intro fuel
   induction fuel with
   | zero => intro q _ p hp; simp [combosLoop] at hp
@@ -268,10 +269,10 @@ theorem combosLoop_keys (scores : List Nat) (n : Nat) :
           obtain ⟨i, _, rfl⟩ := hx
           rfl
 
-theorem combosLoop_sorted (scores : List Nat) (n : Nat) :
+theorem combosLoop_sorted (val : Nat → Nat) (scores : List Nat) (n : Nat) :
     ∀ (fuel : Nat) (q : List Entry) (lb : Nat), (∀ e ∈ q, lb ≤ e.key ∧ e.key = scoreSum scores e.comb) →
-      ((combosLoop scores n fuel q).map (·.2)).Pairwise (· ≤ ·) ∧
-        ∀ p ∈ combosLoop scores n fuel q, lb ≤ p.2 := by
+      ((combosLoop val scores n fuel q).map (·.2)).Pairwise (· ≤ ·) ∧
+        ∀ p ∈ combosLoop val scores n fuel q, lb ≤ p.2 := by
   intro fuel
   induction fuel with
   | zero => intro q lb _; simp [combosLoop]
@@ -482,9 +483,12 @@ theorem scan_spec (iStart iEnd : Int) :
 
 /-! ### main theorems -/
 
+theorem sortedCombinationsV_eq (val : Nat → Nat) (scores : List Nat) :
+    sortedCombinationsV val scores =
+      combosLoop val scores scores.length (2 ^ scores.length) (initQueue scores scores.length) := rfl
+
 theorem sortedCombinations_eq (scores : List Nat) :
-    sortedCombinations scores =
-      combosLoop scores scores.length (2 ^ scores.length) (initQueue scores scores.length) := rfl
+    sortedCombinations scores = sortedCombinationsV (fun i => i) scores := rfl
 
 theorem initQueue_keys (scores : List Nat) (n : Nat) :
     ∀ e ∈ initQueue scores n, e.key = scoreSum scores e.comb := by
@@ -493,24 +497,38 @@ theorem initQueue_keys (scores : List Nat) (n : Nat) :
   obtain ⟨i, _, rfl⟩ := he
   rfl
 
+/-- every non-empty index combination exactly once, whatever the element values are (ties among the queue tuples are broken
+through the values, completeness does not depend on it) -/
+theorem combosV_complete (val : Nat → Nat) (scores : List Nat) :
+    ((sortedCombinationsV val scores).map (·.1)).Perm (allCombos scores.length) := by
+  have hinit := pending_init scores scores.length
+  have h := combosLoop_complete val scores scores.length (2 ^ scores.length) (initQueue scores scores.length)
+    (by rw [hinit.length_eq]; exact allCombos_length_le _)
+  rw [sortedCombinationsV_eq]
+  exact h.trans hinit
+
+theorem combosV_keys (val : Nat → Nat) (scores : List Nat) (p : List Nat × Nat)
+    (hp : p ∈ sortedCombinationsV val scores) : p.2 = scoreSum scores p.1 :=
+  combosLoop_keys val scores scores.length _ _ (initQueue_keys scores _) p hp
+
+theorem combosV_sorted (val : Nat → Nat) (scores : List Nat) :
+    ((sortedCombinationsV val scores).map (·.2)).Pairwise (· ≤ ·) :=
+  (combosLoop_sorted val scores scores.length _ _ 0
+    (fun e he => ⟨Nat.zero_le _, initQueue_keys scores _ e he⟩)).1
+
 /-- `sorted_combinations` yields every non-empty combination exactly once -/
 theorem combos_complete (scores : List Nat) :
-    ((sortedCombinations scores).map (·.1)).Perm (allCombos scores.length) := by
-  have hinit := pending_init scores scores.length
-  have h := combosLoop_complete scores scores.length (2 ^ scores.length) (initQueue scores scores.length)
-    (by rw [hinit.length_eq]; exact allCombos_length_le _)
-  rw [sortedCombinations_eq]
-  exact h.trans hinit
+    ((sortedCombinations scores).map (·.1)).Perm (allCombos scores.length) :=
+  combosV_complete _ scores
 
 /-- the key yielded alongside is the key of the combination -/
 theorem combos_keys (scores : List Nat) (p : List Nat × Nat) (hp : p ∈ sortedCombinations scores) :
     p.2 = scoreSum scores p.1 :=
-  combosLoop_keys scores scores.length _ _ (initQueue_keys scores _) p hp
+  combosV_keys _ scores p hp
 
 /-- in non-decreasing key order -/
 theorem combos_sorted (scores : List Nat) : ((sortedCombinations scores).map (·.2)).Pairwise (· ≤ ·) :=
-  (combosLoop_sorted scores scores.length _ _ 0
-    (fun e he => ⟨Nat.zero_le _, initQueue_keys scores _ e he⟩)).1
+  combosV_sorted _ scores
 
 theorem mem_sortedCombinations_iff (scores : List Nat) (c : List Nat) (k : Nat) :
     (c, k) ∈ sortedCombinations scores ↔ (c ∈ allCombos scores.length ∧ k = scoreSum scores c) := by
@@ -558,5 +576,29 @@ theorem sortedCombinations_nodup (scores : List Nat) : (sortedCombinations score
 theorem minComb_nodup (scores : List Nat) (iStart iEnd : Int) : (minCombinations scores iStart iEnd).Nodup := by
   have h := minCombScan_sublist iStart iEnd (sortedCombinations scores) []
   exact List.Sublist.nodup h (sortedCombinations_nodup scores)
+
+/-! ### any elements (repeats allowed): a direct call on the values
+
+`combosV_complete`, `combosV_keys`, `combosV_sorted` (the versions for an arbitrary value map) are stated above, before
+the anchored versions which are their instances at `val = fun i => i`. -/
+
+/-- a direct call on elements with repeats, key = sum: the yielded value tuples are the value tuples of all non-empty index
+combinations, each once (as a multiset) -/
+theorem combosE_complete (elems : List Nat) :
+    ((sortedCombinationsE elems).map (·.1)).Perm
+      ((allCombos elems.length).map (fun c => c.map (fun i => elems.getD i 0))) := by
+  have h := (combosV_complete (fun i => elems.getD i 0) elems).map (fun c => c.map (fun i => elems.getD i 0))
+  simpa [sortedCombinationsE, List.map_map, Function.comp_def] using h
+
+/-- the key alongside is the sum of the yielded tuple -/
+theorem combosE_keys (elems : List Nat) (p : List Nat × Nat) (hp : p ∈ sortedCombinationsE elems) :
+    p.2 = p.1.sum := by
+  simp only [sortedCombinationsE, List.mem_map] at hp
+  obtain ⟨p', hp', rfl⟩ := hp
+  exact combosV_keys _ elems p' hp'
+
+theorem combosE_sorted (elems : List Nat) : ((sortedCombinationsE elems).map (·.2)).Pairwise (· ≤ ·) := by
+  have h := combosV_sorted (fun i => elems.getD i 0) elems
+  simpa [sortedCombinationsE, List.map_map, Function.comp_def] using h
 
 end WindVerif.Generic
